@@ -125,3 +125,5 @@ package newick
 //@   requires pw(p)
 //@   ensures [tree_or_error] result1 == nil ==> result0 != nil
 //@   ensures [the_tree_owns_a_name_index_map] result1 == nil ==> result0.tipIndex != nil
+//@   loop 1
+//@     complete [all_iterations_no_early_exit]
